@@ -932,7 +932,8 @@ func srcsUpTo(h *history, i int) []string {
 func main() {
 	a := vh.ParseArgs()
 	rng := vh.NewRng(a.Seed)
-	rep := vh.NewReport(a, "REPL histories, ONE statement per Interp.Eval (Compile+RunExpr): var/:=/const/func/method/type declarations over "+
+	rep := vh.NewReport(a, "MULTIVAR (multivar.go, 33 quick / 330 thorough histories, own PRNG stream): `var a, b[, c] T = <one multi-valued expression>` with a declared type T wider than the yielded types (interface{}, named empty interface, named method interface, named slice type from []int, <-chan int from chan int; control: identical types), initialised by a call with 2..3 results or a comma-ok map index / type assertion, optionally one blank name, followed in later evaluations by x == nil, dynamic type of x and static type of &x (type switch helper), assignment of another dynamic type, p := &x / *p = v, swap, x = nil, later functions reading/assigning the variables, method calls; every read vs compiled Go. "+
+		"REPL histories, ONE statement per Interp.Eval (Compile+RunExpr): var/:=/const/func/method/type declarations over "+
 		"{int,int8,int64,uint,uint8,uint16,bool,float32,float64,complex64,complex128,string,[]int,struct,named basic,*T,**int}, assignments, compound assignments, ++, "+
 		"p := &x, p = &y, *p = e, *p += e, **pp, *pp = &y, calls of functions that modify globals or return &global, reads; bulk runs of 3..22 (and 200..1200 in the long "+
 		"histories) declarations one per evaluation after an address was taken; redefinitions `var x T = e` / `x := T(e)` with the same or another type, half of them of a variable that a pointer or an earlier function refers to. "+
@@ -1042,6 +1043,20 @@ func main() {
 		hist = append(hist, fv...)
 	}
 	rep.Extra["funcvar_histories"] = nFuncVar
+	// multivar histories (multivar.go): `var a, b T = f()` with a declared type wider than the returned types; own PRNG stream
+	nMultiVar := 0
+	if a.N <= 0 || a.N >= 40 {
+		ir := newInterp()
+		ifaceDefect := false
+		for _, src := range multiVarIfaceCanary {
+			ifaceDefect = evalOne(ir, src).Status != 0 || ifaceDefect
+		}
+		rep.Extra["defect_present:"+multiVarIfaceKey] = ifaceDefect
+		mv := multiVarHistories(vh.NewRng(a.Seed*40503+1414), len(hist), a.Thorough(), ifaceDefect && !registered[multiVarIfaceKey])
+		nMultiVar = len(mv)
+		hist = append(hist, mv...)
+	}
+	rep.Extra["multivar_histories"] = nMultiVar
 	for i, h := range hist {
 		h.Idx = i
 	}
